@@ -10,7 +10,7 @@ pub fn exec2(prop: &str, op: &str, line: &str, args: &[SExp]) -> Option<CaseResu
         "encoded" => Some(op_encoded(line, args)),
         "wire" => Some(op_wire(prop, line, args)),
         "bomb" => Some(op_bomb(line, args)),
-        _ => None,
+        _ => crate::exec3::exec3(prop, op, line, args),
     }
 }
 
